@@ -26,8 +26,9 @@ const (
 )
 
 type Tok struct {
-	Role Role
-	Text string
+	Role  Role
+	Text  string
+	Quote bool // identifier that must be written back-quoted (a name that spells a pseudo-keyword)
 }
 
 // Sentence is a generated sentence with its start symbol (= entry point).
@@ -40,6 +41,9 @@ type G struct {
 	r      *rand.Rand
 	toks   []Tok
 	budget int
+	// PKWNames: identifiers may be (back-quoted) names that spell a pseudo-keyword, e.g. `synonym`, `value`.
+	// Off for the properties that compare SQL() output (known finding K4).
+	PKWNames bool
 	// bareFrom: the query expression being generated contains a pipe-syntax FROM term at its own level
 	// (ORDER BY / LIMIT / FOR UPDATE directly after it are not part of the scope, see SCOPE.md)
 	bareFrom       bool
@@ -59,7 +63,7 @@ func NewG(r *rand.Rand) *G { return &G{r: r, Cov: map[string]int{}, Arity: map[s
 
 func (g *G) kw(ws ...string) {
 	for _, w := range ws {
-		g.toks = append(g.toks, Tok{KW, w})
+		g.toks = append(g.toks, Tok{Role: KW, Text: w})
 	}
 }
 func (g *G) pkw(ws ...string) {
@@ -67,15 +71,15 @@ func (g *G) pkw(ws ...string) {
 		if !PseudoKeywords[w] {
 			panic("gen: " + w + " is not in PseudoKeywords")
 		}
-		g.toks = append(g.toks, Tok{PKW, w})
+		g.toks = append(g.toks, Tok{Role: PKW, Text: w})
 	}
 }
 func (g *G) p(ps ...string) {
 	for _, s := range ps {
-		g.toks = append(g.toks, Tok{PUNCT, s})
+		g.toks = append(g.toks, Tok{Role: PUNCT, Text: s})
 	}
 }
-func (g *G) tok(r Role, text string) { g.toks = append(g.toks, Tok{r, text}) }
+func (g *G) tok(r Role, text string) { g.toks = append(g.toks, Tok{Role: r, Text: text}) }
 
 // --- choice source
 
@@ -146,7 +150,7 @@ func itoa(i int) string {
 // --- lexical pools
 
 var plainNames = []string{"a", "b", "c", "t", "x", "y", "col1", "Singers", "Albums", "_x", "tbl1", "FirstName", "id", "v", "k", "foo", "bar_baz", "n"}
-var quotedNames = []string{"a b", "1x", "select", "from", "é", "a`b", "a\\b", "a-b", "日本", "group", "x.y", "'q'", "a\"b", "\n", "NULL", "\ufffd", "a\ufffd", "\xff", "\u00a0", "😀", "\t", "?", "0", "_ _"}
+var quotedNames = []string{"a b", "1x", "select", "from", "é", "a`b", "a\\b", "a-b", "日本", "group", "x.y", "'q'", "a\"b", "\n", "NULL", "\ufffd", "a\ufffd", "\xff", "\u00a0", "😀", "\t", "?", "0", "_ _", "where", "order", "by", "as", "on", "join", "Select", "FROM", "and", "\xff\ufffd"}
 
 func (g *G) name() string {
 	if g.pickLeafy("name.kind", 8, 7) == 7 {
@@ -155,7 +159,19 @@ func (g *G) name() string {
 	return plainNames[g.r.IntN(len(plainNames))]
 }
 
-func (g *G) ident() { g.tok(ID, g.name()) }
+func (g *G) ident() {
+	if g.PKWNames && g.budget > 0 && g.r.IntN(12) == 0 {
+		w := pkwList[g.r.IntN(len(pkwList))]
+		if g.r.IntN(2) == 0 {
+			w = strings.ToLower(w)
+		}
+		g.toks = append(g.toks, Tok{Role: ID, Text: w, Quote: true})
+		return
+	}
+	g.tok(ID, g.name())
+}
+
+var pkwList []string // filled by init in norm.go
 
 // path := ident {. ident}
 func (g *G) path(site string) {
@@ -170,33 +186,6 @@ func (g *G) path(site string) {
 
 var strValues = []string{"", "a", "abc", "it's", "say \"hi\"", "both ' and \"", "back`tick", "back\\slash", "line1\nline2", "tab\there", "\r", "é", "日本語", "\x00", "\x7f", "\xff\xfe", "a;b", "-- not a comment", "/* nor this */", "%", "2020-01-01", "{\"a\": 1}", "'''", "\"\"\"", "\a\b\f\v", "?", "😀", "\u0085", "x'",
 	"\ufffd", "a\ufffdb", "\u2028", "\ufeff", "\U0010ffff", "\ud7ff\ue000", "\x80", "\xc3", "\xed\xa0\x80", "\u00a0", "\u200b", "\\n", "\\", "\\'", "`", "``", "\"'`"}
-
-// strval returns a literal value: from the pool, or (1 in 5) a random mix of runes and bytes.
-func (g *G) strval() string {
-	if g.r.IntN(5) != 0 {
-		return strValues[g.r.IntN(len(strValues))]
-	}
-	var sb strings.Builder
-	for i, n := 0, 1+g.r.IntN(6); i < n; i++ {
-		switch g.r.IntN(6) {
-		case 0:
-			sb.WriteByte(byte(g.r.IntN(256)))
-		case 1:
-			sb.WriteRune(rune(0x80 + g.r.IntN(0x800)))
-		case 2:
-			x := rune(g.r.IntN(0x110000))
-			if x >= 0xD800 && x <= 0xDFFF {
-				x = 0xFFFD
-			}
-			sb.WriteRune(x)
-		case 3:
-			sb.WriteByte("'\"`\\\n\r\t?%_"[g.r.IntN(10)])
-		default:
-			sb.WriteByte(byte(0x20 + g.r.IntN(0x5f)))
-		}
-	}
-	return sb.String()
-}
 
 var intSpellings = []string{"0", "1", "2", "7", "10", "42", "123", "1000", "0x0", "0x1F", "0XaB", "0xabcdef", "9223372036854775807", "00", "007"}
 var floatSpellings = []string{"1.5", "0.5", ".5", "5.", "1e3", "1E3", "1e+3", "1e-3", "1.5e3", ".5e-3", "5.e3", "0.0", "123.456"}
